@@ -82,11 +82,13 @@ def register_forward_ref(
             #   attr1: 'forward' = Field(gt=1)
             #   attr2: 'forward' = Field(gt=2)
             # we use forward_key (attname) over forward_arg
-            forward_refs.setdefault(
-                f"${forward_key}" if forward_key else annotation.__forward_arg__,
-                # use a $ to differ from forward arg
-                (annotation, constraints),
-            )
+            key = f"${forward_key}" if forward_key else annotation.__forward_arg__
+            # use a $ to differ from forward arg
+            while key in forward_refs and forward_refs[key][0] is not annotation:
+                # another reference object with the same name (List['B'] and Dict[str, 'B'] in one class):
+                # each of them has to be evaluated
+                key += "'"
+            forward_refs.setdefault(key, (annotation, constraints))
             # still not evaluated
             return annotation
         # raise TypeError(f'{repr(forward_key)}: Unsupported ForwardRef: {annotation}')
@@ -182,9 +184,10 @@ class LogicalType(type):  # noqa
         args = []
         resolved = False
         for i, arg in enumerate(cls.args):
-            arg, resolved = resolve_forward_type(arg)
-            if resolved:
+            arg, r = resolve_forward_type(arg)
+            if r:
                 arg = cls._parse_arg(arg)
+                resolved = True
             args.append(arg)
         if resolved:
             # only adjust args if resolved
@@ -1845,11 +1848,16 @@ class Rule(metaclass=LogicalType):
     @classmethod
     def resolve_forward_refs(cls):
         # an override version of LogicalType.resolve_forward_refs
+        resolved = False
+        origin = cls.__origin__
+        if isinstance(origin, LogicalType) and origin.combinator:
+            # like Optional['ref'] with field constraints or a default: Rule[AnyOf(ref, None)]
+            if origin.resolve_forward_refs():
+                resolved = True
         if not cls.__args__:
-            return False
+            return resolved
         args = []
         arg_transformers = []
-        resolved = False
         for arg, trans in zip(cls.__args__, cls.__arg_transformers__):
             if isinstance(arg, LogicalType):
                 # including the Rule class and LogicalType with combinator
